@@ -93,32 +93,50 @@ theorem searchFriendly_sound (s1 s2 : List (Cmd Float)) (tol : Float) (R : Aff F
   obtain ⟨m2, _, h⟩ := bind_eq_ok.mp h
   exact orElseGate_sound _ R s1 s2 tol _ (stage2_sound s1 s2 tol _ _ _ _ R) h
 
+/-- the identity shortcut only fires on outlines that are equal command for command within the tolerance (and, with arcs,
+    whose cubic forms are: `identityHolds`) -/
+theorem identityHolds_sound (d1 d2 : String) (p1 p2 : List (Cmd Float)) (tol : Float)
+    (h : identityHolds d1 d2 p1 p2 tol = .ok true) : almostEquals tol p1 p2 = true := by
+  unfold identityHolds at h
+  by_cases heq : almostEquals tol p1 p2 = true
+  · exact heq
+  · simp [heq] at h
+
 /-- C20-main (soundness): whenever `affine_between` reports a transform, either the shapes are
-    already equal within the tolerance and the transform is the identity, or the transform applied
-    to the first outline reproduces the second within the tolerance, command for command. -/
+    already equal within the tolerance (with arcs: on their cubic forms too) and the transform is the identity, or the
+    transform applied to the first outline reproduces the second within the tolerance, command for command. -/
 theorem affineBetween_sound (d1 d2 : String) (tol : Float) (R : Aff Float)
     (h : affineBetween d1 d2 tol = .ok (some R)) :
-    (∃ p1 p2, SvgPath.cmdsOf d1 = .ok p1 ∧ SvgPath.cmdsOf d2 = .ok p2 ∧ almostEquals tol p1 p2 = true ∧ R = Aff.id) ∨
+    (∃ p1 p2, SvgPath.cmdsOf d1 = .ok p1 ∧ SvgPath.cmdsOf d2 = .ok p2 ∧ identityHolds d1 d2 p1 p2 tol = .ok true ∧
+        almostEquals tol p1 p2 = true ∧ R = Aff.id) ∨
     (∃ s1 s2, affineFriendly d1 = .ok s1 ∧ affineFriendly d2 = .ok s2 ∧ tryAffine R s1 s2 tol = .ok true) := by
   unfold affineBetween at h
   obtain ⟨p1, hp1, h⟩ := bind_eq_ok.mp h
   obtain ⟨p2, hp2, h⟩ := bind_eq_ok.mp h
-  by_cases heq : almostEquals tol p1 p2 = true
-  · left
-    rw [if_pos heq] at h
+  obtain ⟨same, hsame, h⟩ := bind_eq_ok.mp h
+  cases same with
+  | true =>
+    left
+    rw [if_pos rfl] at h
     injection h with h; injection h with h
-    exact ⟨p1, p2, hp1, hp2, heq, h.symm⟩
-  · right
-    rw [if_neg heq] at h
+    exact ⟨p1, p2, hp1, hp2, hsame, identityHolds_sound d1 d2 p1 p2 tol hsame, h.symm⟩
+  | false =>
+    right
+    simp only [Bool.false_eq_true, if_false] at h
     obtain ⟨s1, hs1, h⟩ := bind_eq_ok.mp h
     obtain ⟨s2, hs2, h⟩ := bind_eq_ok.mp h
     exact ⟨s1, s2, hs1, hs2, searchFriendly_sound s1 s2 tol R h⟩
 
-/-- C20-identical: identical outlines yield the identity -/
+/-- C20-identical: identical outlines yield the identity (outlines with arcs: when their cubic form exists and passes the
+    comparison with itself) -/
 theorem identical_identity (d : String) (tol : Float) (p : List (Cmd Float))
-    (hp : SvgPath.cmdsOf d = .ok p) (heq : almostEquals tol p p = true) :
+    (hp : SvgPath.cmdsOf d = .ok p) (heq : almostEquals tol p p = true)
+    (harc : hasArcLetter d = true → ∃ e c, SvgPath.arcsToCubics d = .ok e ∧ SvgPath.cmdsOf e = .ok c ∧ almostEquals tol c c = true) :
     affineBetween d d tol = .ok (some Aff.id) := by
-  unfold affineBetween
-  simp [hp, heq, bind, Except.bind]
+  unfold affineBetween identityHolds
+  by_cases ha : hasArcLetter d = true
+  · obtain ⟨e, c, he, hc, hcc⟩ := harc ha
+    simp [hp, heq, ha, he, hc, hcc, bind, Except.bind]
+  · simp [hp, heq, ha, bind, Except.bind]
 
 end PicoSVG.C20
